@@ -7,7 +7,7 @@ elaborated by Amaranth, and `forall inputs: A => out = spec(in)` is discharged b
 import itertools
 
 import z3
-from amaranth import Signal, signed, unsigned, Value, Cat, C
+from amaranth import Signal, signed, unsigned, Value, Cat, C, Mux
 from amaranth.lib import data
 
 from transactron.utils.amaranth_ext import functions as F
@@ -264,6 +264,17 @@ def _patch_mod_add():
     F.mod_add = bad
 
 
+def _patch_mod_incr_truncates():
+    # the power-of-two branch wraps modulo 2**len(sig) instead of modulo mod: right only when len(sig) == log2(mod)
+    def bad(sig, mod):
+        sig = Value.cast(sig)
+        if not (mod & (mod - 1)):
+            return (sig + 1)[: len(sig)]
+        return Mux(sig == mod - 1, 0, sig + 1)
+
+    F.mod_incr = bad
+
+
 def _patch_min():
     import operator
 
@@ -273,5 +284,6 @@ def _patch_min():
 CANARIES = [
     {"name": "ctz_zero_input", "cfg": {"fn": "popcount_ctz_clz", "w": 5}, "patch": _patch_ctz, "expect": r"count_trailing_zeros"},
     {"name": "mod_add_drops_last_case", "cfg": {"fn": "mod_add", "mod": 5, "max_incr": 3}, "patch": _patch_mod_add, "expect": r"mod_add"},
+    {"name": "mod_incr_wraps_at_operand_width", "cfg": {"fn": "mod_incr", "mod": 8, "extra": 1}, "patch": _patch_mod_incr_truncates, "expect": r"mod_incr"},
     {"name": "min_value_ignores_sign", "cfg": {"fn": "reductions", "shapes": ["s2", "u3"]}, "patch": _patch_min, "expect": r"min_value"},
 ]
